@@ -1,5 +1,5 @@
 /-
-  C08, one group on the heap: `mergeGroup` (copy the first record of a group, then `add_attributes` of every other
+  C08, one group on the heap: `mergeGroup` (re-create the first record of a group in a scratch bundle, then `add_attributes` of every other
   member onto the copy) allocates one fresh record cell, touches no other record cell, and — when it succeeds — that
   cell holds exactly the union of the members' (attribute, value) pairs: every pair of every member is represented,
   and nothing else is there.
@@ -148,20 +148,26 @@ theorem recCell_push_lt (h : Heap) (cell : RecCell) (r : Nat) (hr : r < h.recs.s
     ({ h with recs := h.recs.push cell } : Heap).recCell r = h.recCell r := by
   simp [recCell, Array.getD_eq_getD_getElem?, Array.getElem?_push, Nat.ne_of_lt hr]
 
-/-- `record.copy()` on the heap: one fresh cell holding the source's pairs, nothing else written -/
-theorem copyRecord_content (h : Heap) (r0 : Nat) (hn : AllInv1 h) (hok : PairsOk (h.recCell r0).r) (h1 : Heap) (mref : Nat)
-    (hres : h.copyRecord r0 = (h1, .ok mref)) :
+theorem allInv1_scratch (h : Heap) (hn : AllInv1 h) : AllInv1 (h.allocCont false none [] none).1 := by
+  intro i
+  simp only [Heap.allocCont, Heap.allocMgr, Heap.mgrCell, Array.getD_eq_getD_getElem?, Array.getElem?_push]
+  split
+  · simpa using C05.addNss_inv1 _ NsMgr.init_inv1 []
+  · have := hn i
+    simpa [Heap.mgrCell, Array.getD_eq_getD_getElem?] using this
+
+/-- `mkRecord` with a record's own arguments, in any container: one fresh cell holding the source's pairs, nothing else
+    written -/
+theorem mkRecord_content (h : Heap) (c : Nat) (src : Record) (hn : AllInv1 h) (hok : PairsOk src) (h1 : Heap) (mref : Nat)
+    (hres : h.mkRecord c src.kind src.id (argsOf src) = (h1, .ok mref)) :
     mref = h.recs.size ∧ h1.recs.size = h.recs.size + 1 ∧ AllInv1 h1 ∧
-      Absorbed ⟨(h.recCell r0).r.kind, (h.recCell r0).r.id, []⟩ (h1.recCell mref).r (h.recCell r0).r ∧
+      Absorbed ⟨src.kind, src.id, []⟩ (h1.recCell mref).r src ∧
       (∀ r, r < h.recs.size → h1.recCell r = h.recCell r) := by
-  unfold copyRecord mkRecord at hres
+  unfold mkRecord at hres
   simp only [] at hres
   split at hres
   · cases hres
-  · have hargs : (h.recCell r0).r.flat.map (fun p => ({ name := .qn p.1, value := .val p.2 } : AttrArg)) = argsOf (h.recCell r0).r := rfl
-    rw [hargs] at hres
-    generalize hra : Record.addAttributes (h.parentOf (h.recCell r0).bundle) (h.mgrOf (h.recCell r0).bundle)
-      ⟨(h.recCell r0).r.kind, (h.recCell r0).r.id, []⟩ (argsOf (h.recCell r0).r) = res at hres
+  · generalize hra : Record.addAttributes (h.parentOf c) (h.mgrOf c) ⟨src.kind, src.id, []⟩ (argsOf src) = res at hres
     obtain ⟨m', rc, e⟩ := res
     cases e with
     | some err => simp at hres
@@ -169,7 +175,7 @@ theorem copyRecord_content (h : Heap) (r0 : Nat) (hn : AllInv1 h) (hok : PairsOk
       simp only [Prod.mk.injEq, Except.ok.injEq] at hres
       obtain ⟨rfl, rfl⟩ := hres
       obtain ⟨hm', habs⟩ := addAttributes_absorbs _ _ (hn _) _ _ hok m' rc hra
-      have hsz : (h.setMgr (h.recCell r0).bundle m').recs.size = h.recs.size := by simp [recs_setMgr]
+      have hsz : (h.setMgr c m').recs.size = h.recs.size := by simp [recs_setMgr]
       refine ⟨hsz, by simp [setMgr], ?_, ?_, ?_⟩
       · intro i
         exact allInv1_setMgr hn _ m' hm' i
@@ -178,6 +184,33 @@ theorem copyRecord_content (h : Heap) (r0 : Nat) (hn : AllInv1 h) (hok : PairsOk
       · intro r hr
         rw [recCell_push_lt _ _ _ (by rw [hsz]; exact hr)]
         rfl
+
+/-- `record.copy()` on the heap: one fresh cell holding the source's pairs, nothing else written -/
+theorem copyRecord_content (h : Heap) (r0 : Nat) (hn : AllInv1 h) (hok : PairsOk (h.recCell r0).r) (h1 : Heap) (mref : Nat)
+    (hres : h.copyRecord r0 = (h1, .ok mref)) :
+    mref = h.recs.size ∧ h1.recs.size = h.recs.size + 1 ∧ AllInv1 h1 ∧
+      Absorbed ⟨(h.recCell r0).r.kind, (h.recCell r0).r.id, []⟩ (h1.recCell mref).r (h.recCell r0).r ∧
+      (∀ r, r < h.recs.size → h1.recCell r = h.recCell r) :=
+  mkRecord_content h (h.recCell r0).bundle (h.recCell r0).r hn hok h1 mref hres
+
+/-- the scratch copy that starts a merge: one fresh record cell (in a fresh container) holding the first member's pairs;
+    no record cell that existed is written -/
+theorem scratchCopy_content (h : Heap) (r0 : Nat) (hn : AllInv1 h) (hok : PairsOk (h.recCell r0).r) (h1 : Heap) (mref : Nat)
+    (hres : h.scratchCopy r0 = (h1, .ok mref)) :
+    mref = h.recs.size ∧ h1.recs.size = h.recs.size + 1 ∧ AllInv1 h1 ∧
+      Absorbed ⟨(h.recCell r0).r.kind, (h.recCell r0).r.id, []⟩ (h1.recCell mref).r (h.recCell r0).r ∧
+      (∀ r, r < h.recs.size → h1.recCell r = h.recCell r) := by
+  unfold scratchCopy at hres
+  simp only [] at hres
+  have hn0 := allInv1_scratch h hn
+  have hrecs : (h.allocCont false none [] none).1.recs = h.recs := rfl
+  generalize h.allocCont false none [] none = al at hres hn0 hrecs
+  obtain ⟨h0, sc⟩ := al
+  simp only at hres hn0 hrecs
+  obtain ⟨a1, a2, a3, a4, a5⟩ := mkRecord_content h0 sc (h.recCell r0).r hn0 hok h1 mref hres
+  have hcell : ∀ r, h0.recCell r = h.recCell r := fun r => by simp [recCell, hrecs]
+  refine ⟨by rw [a1, hrecs], by rw [a2, hrecs], a3, a4, fun r hr => ?_⟩
+  rw [a5 r (by rw [hrecs]; exact hr), hcell]
 
 /-- **`mergeGroup` on the heap**: for a group of existing records (distinct from one another is not needed) whose pairs
     are of the right classes, in a heap whose managers satisfy the C03 invariant, a successful merge allocates exactly one
@@ -192,14 +225,14 @@ theorem c08_mergeGroup_content (h : Heap) (r0 : Nat) (rest : List Nat) (hn : All
     (∀ r, r < h.recs.size → h'.recCell r = h.recCell r) ∧ AllInv1 h' ∧ h'.recs.size = h.recs.size + 1 := by
   unfold mergeGroup at hres
   simp only [] at hres
-  cases hc : h.copyRecord r0 with
+  cases hc : h.scratchCopy r0 with
   | mk h1 e =>
     rw [hc] at hres
     cases e with
     | error err => simp at hres
     | ok m0 =>
       simp only [] at hres
-      obtain ⟨hidx, hsize, hn1, habs, hkeep⟩ := copyRecord_content h r0 hn (hex r0 List.mem_cons_self).2 h1 m0 hc
+      obtain ⟨hidx, hsize, hn1, habs, hkeep⟩ := scratchCopy_content h r0 hn (hex r0 List.mem_cons_self).2 h1 m0 hc
       cases hg : mergeGroup.go m0 h1 rest with
       | mk h2 e2 =>
         rw [hg] at hres
